@@ -131,11 +131,49 @@ func c09WBObserve(w *c09World, point string, delivered []RegionVerID) {
 	}
 	cur := c09WalkIndex(w.cache)
 	w.r.Count("index_walks", 1)
+	c09JudgeMaps(w, point, cur)
+	if w.wbReset.Swap(false) {
+		// several callers were at work since the last walk: no single answer explains the transition
+		st.prev, st.pending = nil, nil
+	}
 	if st.prev != nil {
 		c09JudgeTransition(w, point, st.prev, cur, st.pending)
 	}
 	st.prev = cur
 	st.pending = delivered
+}
+
+// c09JudgeMaps: the three structures of the index describe the same set of
+// entries: every entry of the ordered index is in the by-version map and vice
+// versa, and the newest-version record of an id names a version that is there.
+func c09JudgeMaps(w *c09World, point string, cur *c09IdxSnap) {
+	w.r.Eval(1)
+	inSorted := map[RegionVerID]int{}
+	for _, e := range cur.entries {
+		inSorted[e.ver]++
+	}
+	bad := ""
+	for v, n := range inSorted {
+		if _, ok := cur.regions[v]; !ok {
+			bad = fmt.Sprintf("r%d@%d.%d is in the ordered index but not in the by-version map", v.id, v.ver, v.confVer)
+		}
+		if n > 1 {
+			bad = fmt.Sprintf("r%d@%d.%d is in the ordered index %d times", v.id, v.ver, v.confVer, n)
+		}
+	}
+	for v := range cur.regions {
+		if inSorted[v] == 0 {
+			bad = fmt.Sprintf("r%d@%d.%d is in the by-version map but not in the ordered index", v.id, v.ver, v.confVer)
+		}
+	}
+	for id, v := range cur.latest {
+		if _, ok := cur.regions[v]; !ok || v.id != id {
+			bad = fmt.Sprintf("newest-version record of region %d names r%d@%d.%d which is not cached", id, v.id, v.ver, v.confVer)
+		}
+	}
+	if bad != "" {
+		w.violate("index:maps-inconsistent", bad, map[string]any{"observed_at": point, "index": cur.String()})
+	}
 }
 
 func c09JudgeTransition(w *c09World, point string, prev, cur *c09IdxSnap, pending []RegionVerID) {
